@@ -195,14 +195,78 @@ def drop_coverage(F, R):
         R.ob('DROP', 'DROP::%s::elements-owned-by-%s' % (aid, inner), bool(holds), '%s stores its elements in %s fields %s whose Drop drops them' % (core.short(aid), inner, holds), '%s:%s' % (a['file'], a['line']))
 
 
+def ring_index(F, R):
+    """Queue: every raw slot access of the ring buffer goes through the ring index `(..) % capacity` (clear/drop included: after a pop
+    the oldest element is not in slot 0)."""
+    n = 0
+    for f in F.find_fns(r'^iceoryx2_bb_container::queue::MetaQueue'):
+        for c in f.calls(r'ptr::(mut_ptr|const_ptr)::<impl \*(mut|const) T>::add$'):
+            if 'data_ptr' not in f.chain(c.args[0]):
+                continue
+            n += 1
+            t = sym_nstr(sym(f, c.args[1]))
+            ok = re.search(r'% self\.capacity\)?$', t) is not None
+            R.ob('SYM-EQ', 'SYM-EQ::%s::slot-index-is-ring-index' % fnkey(f), ok, 'slot address data_ptr.add(%s); required (<position>) %% self.capacity' % t[:120], c.where, f)
+    R.floor('raw ring-buffer slot accesses in MetaQueue', n, 5)
+
+
+def _field_writes(f, field):
+    """Assignments whose destination place ends in `.field` -> list of (site, place)."""
+    out = []
+    for s_ in f.sites:
+        if s_.i != 'T' and s_.node[0] == 'a' and len(s_.node[1]) > 1 and s_.node[1][-1] == '.' + field:
+            out.append((s_, s_.node[1]))
+    return out
+
+
+def _reads_field(f, field):
+    return any(('.' + field) in lib._flat(s_.node) for s_ in f.sites if s_.i != 'T' and s_.node[0] == 'a' and s_.node[1][-1:] != ['.' + field]) or \
+        any(('.' + field) in lib._flat(f.blocks[b]['t']) for b in range(len(f.blocks)))
+
+
+def free_list(F, R):
+    """SlotMap free list (doubly linked through idx_to_data_free_list[i].{previous,next}, head idx_to_data_free_list_head): each of the three
+    list operations keeps both link directions and the head consistent."""
+    H = 'idx_to_data_free_list_head'
+    fs = [f for f in F.find_fns(r'^iceoryx2_bb_container::slotmap::MetaSlotMap::<.*>::\w+$') if f.kind != 'closure']
+    seen = 0
+    for f in fs:
+        hw = _field_writes(f, H)
+        pw = _field_writes(f, 'previous')
+        nw = _field_writes(f, 'next')
+        if not (hw or pw or nw):
+            continue
+        # whole-entry writes `list[idx] = FreeListEntry{..}` count as writes of both links
+        whole = [s_ for s_ in f.sites if s_.i != 'T' and s_.node[0] == 'a' and s_.node[2][0] == 'agg' and 'FreeListEntry' in str(s_.node[2][1])]
+        if f.name.startswith('init') or f.name.startswith('new') or f.name == 'clear_impl' or len(whole) and not hw and not pw and not nw:
+            continue
+        seen += 1
+        reads_head = _reads_field(f, H)
+        param_is_new_head = any((lambda pr: pr.root[0] == 'arg' and pr.root[1] >= 2 and not pr.path)(f.prov_operand(s_.node[2][1])) for s_, _ in hw if s_.node[2][0] == 'use')
+        key = '%s::%s::' % ('PAIR', fnkey(f))
+        if param_is_new_head:
+            # push-front: the old head's back link must be set
+            R.ob('PAIR', key + 'push-front-sets-back-link-of-old-head', bool(pw), 'the function makes its argument the new head (%d head write(s)) and sets the old head\'s `.previous` (%d write(s)): insert_at() later unlinks through `previous`' % (len(hw), len(pw)), hw[0][0].where, f)
+        elif hw:
+            # pop-front: new head's back link reset
+            R.ob('PAIR', key + 'pop-front-resets-back-link-of-new-head', bool(pw), 'the function advances the head (%d head write(s)) and resets the new head\'s `.previous` (%d write(s))' % (len(hw), len(pw)), hw[0][0].where, f)
+        if pw and nw and not param_is_new_head and any(f.prov_operand(['c', [int(pl[-2][2:-1])]]).root[0] == 'arg' for _, pl in nw if isinstance(pl[-2], str) and pl[-2].startswith('[_')):
+            # unlink of an arbitrary node given as argument: the head must be considered
+            R.ob('PAIR', key + 'unlink-considers-the-head', reads_head and bool(hw), 'the function unlinks the entry of its argument (writes %d `.next`, %d `.previous`) and %s the list head: unlinking the head itself must advance it, otherwise insert() hands out the occupied key' % (len(nw), len(pw), 'reads and updates' if (reads_head and hw) else 'never looks at'), nw[0][0].where, f)
+    R.floor('free-list operations of MetaSlotMap', seen, 3)
+
+
 def check(F, R, tier):
     delegates_same(F, R)
     refusal_before_write(F, R)
     drop_coverage(F, R)
+    ring_index(F, R)
+    free_list(F, R)
 
 
-LEVEL_TEXT = ("Decides three structural clauses over all storage flavours: wrappers forward to the same-named operation, refusals are never reached after "
-              "a write (capacity errors change nothing), element drop coverage without double drop. Necessary conditions; agreement with the reference "
+LEVEL_TEXT = ("Decides structural clauses over all storage flavours: wrappers forward to the same-named operation, refusals are never reached after "
+              "a write (capacity errors change nothing), element drop coverage without double drop, every raw queue slot access uses the ring index, "
+              "the slot map's free-list operations keep both link directions and the head consistent. Necessary conditions; agreement with the reference "
               "containers over operation sequences is not decided.")
 LEVEL_NOTE = "Trusted: rustc MIR; the forwarder detection idiom and the `_impl`/`__internal_` naming conventions. Small structural part of the property."
 TECHNIQUE = "static analysis: forwarder cross-check over the resolved call graph, no-refusal-after-write path rules, drop-coverage rules"
